@@ -12,6 +12,7 @@ import (
 	"encoding/json"
 	"fmt"
 	"net/http/httptest"
+	"strings"
 	"testing"
 
 	"verif/harness/vhk"
@@ -38,12 +39,30 @@ func TestC09Conversion(t *testing.T) {
 		hs := vlib.NewHookSet(c.Dir, "hooks")
 		binding := "conv-binding"
 		cfg := m{"configVersion": "v1", "kubernetesCustomResourceConversion": []any{m{"name": binding, "crdName": crd, "conversions": convs}}}
-		if rng.IntN(2) == 0 {
+		convIncl := rng.IntN(2) == 0
+		if convIncl {
 			cfg["kubernetes"] = []any{m{"name": "k", "apiVersion": "v1", "kind": "ConfigMap", "executeHookOnSynchronization": false}}
 			cfg["kubernetesCustomResourceConversion"].([]any)[0].(m)["includeSnapshotsFrom"] = []any{"k"}
 		}
+		// the same hook also has a validating and a mutating binding with different snapshot lists
+		inclV, inclM := rng.IntN(2) == 0, rng.IntN(2) == 0
+		if _, hasK := cfg["kubernetes"]; !hasK {
+			cfg["kubernetes"] = []any{m{"name": "k", "apiVersion": "v1", "kind": "ConfigMap", "executeHookOnSynchronization": false}}
+		}
+		cfg["kubernetes"] = append(cfg["kubernetes"].([]any), m{"name": "k2", "apiVersion": "v1", "kind": "ConfigMap", "executeHookOnSynchronization": false, "nameSelector": m{"matchNames": []any{"zz"}}})
+		admRules := []any{m{"apiGroups": []any{""}, "apiVersions": []any{"v1"}, "operations": []any{"CREATE"}, "resources": []any{"pods"}, "scope": "Namespaced"}}
+		vb := m{"name": "val.example.com", "rules": admRules}
+		mb := m{"name": "mut.example.com", "rules": admRules}
+		if inclV {
+			vb["includeSnapshotsFrom"] = []any{"k"}
+		}
+		if inclM {
+			mb["includeSnapshotsFrom"] = []any{"k2"}
+		}
+		cfg["kubernetesValidating"] = []any{vb}
+		cfg["kubernetesMutating"] = []any{mb}
 		hs.AddHook("conv", 0o755, cfgJSON(cfg))
-		hs.Plan("conv", -1, vhk.Directive{Conversion: "@convert"})
+		hs.Plan("conv", -1, vhk.Directive{Conversion: "@convert", Admission: `{"allowed":true}`})
 		order := rng.Perm(nRules)
 		var uids []string
 		inBubble(c, func(t *testing.T) {
@@ -63,6 +82,21 @@ func TestC09Conversion(t *testing.T) {
 				res.Inconclusive = "conversion handler not initialised"
 				return
 			}
+			if sys.Op.AdmissionWebhookManager == nil || sys.Op.AdmissionWebhookManager.Handler == nil {
+				res.Inconclusive = "admission handler not initialised"
+				return
+			}
+			for _, path := range []string{"/hooks/val-example-com", "/hooks/mut-example-com"} {
+				review := m{"apiVersion": "admission.k8s.io/v1", "kind": "AdmissionReview", "request": m{
+					"uid": "c09-adm" + path, "kind": m{"group": "", "version": "v1", "kind": "Pod"}, "resource": m{"group": "", "version": "v1", "resource": "pods"},
+					"name": "p", "namespace": "default", "operation": "CREATE", "object": m{"apiVersion": "v1", "kind": "Pod", "metadata": m{"name": "p", "namespace": "default"}},
+				}}
+				b, _ := json.Marshal(review)
+				rec := httptest.NewRecorder()
+				hreq := httptest.NewRequest("POST", path, bytes.NewReader(b))
+				hreq.Header.Set("Content-Type", "application/json")
+				sys.Op.AdmissionWebhookManager.Handler.Router.ServeHTTP(rec, hreq)
+			}
 			for k, ri := range order {
 				r := rules[ri]
 				uid := fmt.Sprintf("c09-%d-%d", c.Index, k)
@@ -80,7 +114,37 @@ func TestC09Conversion(t *testing.T) {
 			return res
 		}
 		execs := hs.Executions()
-		desc := fmt.Sprintf("binding %s with rules %v, requests served in the order %v", binding, rules, order)
+		desc := fmt.Sprintf("binding %s with rules %v, requests served in the order %v; validating binding includes k: %v, mutating binding includes k2: %v", binding, rules, order, inclV, inclM)
+		// the two admission runs come first
+		if len(execs) >= 2 {
+			for i, want := range []struct {
+				Typ, Binding string
+				Keys         []string
+			}{{"Validating", "val.example.com", map[bool][]string{true: {"k"}, false: nil}[inclV]}, {"Mutating", "mut.example.com", map[bool][]string{true: {"k2"}, false: nil}[inclM]}} {
+				ex := execs[i]
+				if len(ex.Contexts) != 1 {
+					res.Violate("admission/context-count", "admission run %d received %d contexts\n%s", i, len(ex.Contexts), desc)
+					continue
+				}
+				cx := ex.Contexts[0]
+				res.Count("admission_contexts_validated", 1)
+				if cx["type"] != want.Typ || cx["binding"] != want.Binding {
+					res.Violate("admission/type-or-binding", "admission run %d: type %v binding %v, expected %s %s\n%s", i, cx["type"], cx["binding"], want.Typ, want.Binding, desc)
+				}
+				snaps, has := cx["snapshots"].(map[string]any)
+				if has != (want.Keys != nil) {
+					res.Violate("admission/snapshots-presence/"+want.Typ, "snapshots present=%v, binding includes snapshots=%v\ncontext: %s\n%s", has, want.Keys != nil, vlib.JSON(cx), desc)
+				} else if has && strings.Join(vlib.SortedKeys(snaps), ",") != strings.Join(want.Keys, ",") {
+					res.Violate("admission/snapshots-keys/"+want.Typ, "snapshots has the keys %v, the binding includes %v\ncontext: %s\n%s", vlib.SortedKeys(snaps), want.Keys, vlib.JSON(cx), desc)
+				}
+				rv, _ := cx["review"].(map[string]any)
+				rq, _ := rv["request"].(map[string]any)
+				if !strings.HasPrefix(fmt.Sprint(rq["uid"]), "c09-adm") {
+					res.Violate("admission/review-request", "review.request.uid %v\n%s", rq["uid"], desc)
+				}
+			}
+			execs = execs[2:]
+		}
 		if len(execs) != len(order) {
 			res.Violate("conversion/executions", "%d hook executions for %d single-step requests\n%s", len(execs), len(order), desc)
 			return res
@@ -108,7 +172,7 @@ func TestC09Conversion(t *testing.T) {
 				fail("review-request", "review.request.uid %v desiredAPIVersion %v", rq["uid"], rq["desiredAPIVersion"])
 			}
 			_, hasSnap := cx["snapshots"]
-			_, wantSnap := cfg["kubernetes"]
+			wantSnap := convIncl
 			if hasSnap != wantSnap {
 				fail("snapshots-presence", "snapshots present=%v, binding includes snapshots=%v", hasSnap, wantSnap)
 			}
